@@ -45,10 +45,10 @@ def replay_cases(run, scratch, name, cases, kind, want_key="want", signature=Non
     canary_idx = len(cases)
     caught = per_case.get(canary_idx, 0)
     run.canary[name] = {"corrupted_case_rejected": bool(caught)}
-    if not caught:
-        raise ToolError(f"{name}: binding canary was accepted by the harness")
     real = [m for m in mism if m["case"] != canary_idx]
     bad_cases = sorted(k for k in per_case if k != canary_idx)
+    if not caught and not bad_cases:
+        raise ToolError(f"{name}: binding canary was accepted by the harness")
     run.traces += len(cases)
     run.evaluations += summary["calls"]
     run.steps.append({"step": name + ":replay", "cases": len(cases), "impl_calls": summary["calls"],
@@ -124,7 +124,7 @@ def validate_pure_trace(run, scratch, name, module, events, canary_field="got", 
     cidx = len(events)
     ok = cidx in mism
     run.canary[name] = {"corrupted_event_rejected": ok}
-    if not ok:
+    if not ok and not [i for i in mism if i != cidx]:
         raise ToolError(f"{name}: binding canary event was accepted by the trace specification")
     run.traces += len(events)
     run.steps[-1]["events"] = len(events)
